@@ -385,6 +385,11 @@ class Server(utils.EventEmitter):
             logger.warning('CCCD value not 2 bytes long')
             return
 
+        connection = bearer.connection if att.is_enhanced_bearer(bearer) else bearer
+        if self.device.connections.get(connection.handle) is not connection:
+            logger.warning('CCCD write on a closed connection, ignored')
+            return
+
         cccds = self.subscribers.setdefault(bearer, {})
         cccds[characteristic.handle] = value
         logger.debug(f'CCCDs: {cccds}')
